@@ -1151,3 +1151,294 @@ func ruleCommandIdentity(c *Ctx, rule string) {
 		c.unresolvedRoot("identity comparisons of command values")
 	}
 }
+
+// ---- C11.h: message numbers and UIDs handed to the caller -----------------
+
+// deliveredNumberSinks: where the client hands a message sequence number or
+// UID that came off the wire to its caller. Confirmed by reading; one line
+// of reason each. (SearchData.Min/Max are not listed: zero there encodes
+// "absent", so a wire zero is not delivered as a message number.)
+var deliveredNumberFields = map[string]string{
+	"FetchMessageData.SeqNum": "sequence number of a FETCH response, handed to the command's stream or the unilateral handler",
+	"FetchItemDataUID.UID":    "UID item of a FETCH response",
+	"AppendData.UID":          "APPENDUID response code",
+	"SortCommand.nums":        "SORT response numbers",
+	"ThreadData.Chain":        "THREAD response numbers",
+}
+
+func ruleDeliveredNumbers(c *Ctx, rule string) {
+	p := c.P
+	flows := map[*ssa.Function]*mustResult{}
+	cellKey := func(v ssa.Value) string {
+		for {
+			switch x := v.(type) {
+			case *ssa.Convert:
+				v = x.X
+				continue
+			case *ssa.ChangeType:
+				v = x.X
+				continue
+			}
+			break
+		}
+		switch x := v.(type) {
+		case *ssa.UnOp:
+			if x.Op == token.MUL {
+				switch a := x.X.(type) {
+				case *ssa.Alloc:
+					return "cell:" + a.Name()
+				case *ssa.FreeVar:
+					return "cell:" + a.Name()
+				}
+			}
+		case *ssa.Parameter:
+			return "param:" + x.Name()
+		case *ssa.Const:
+			return ""
+		}
+		if v != nil {
+			return "val:" + v.Name()
+		}
+		return ""
+	}
+	flowOf := func(fn *ssa.Function) *mustResult {
+		if r, ok := flows[fn]; ok {
+			return r
+		}
+		r := mustFlow(fn, facts{}, nil, func(f facts, b *ssa.BasicBlock, s int) facts {
+			var add []string
+			for _, a := range edgeAtoms(b, s) {
+				if a.Const == nil {
+					continue
+				}
+				if kk, ok := constInt(a.Const); ok && kk == 0 && (a.Op == token.NEQ || a.Op == token.GTR) {
+					if k := cellKey(a.V); k != "" {
+						add = append(add, "nonzero:"+k)
+					}
+				}
+			}
+			return f.with(add...)
+		})
+		flows[fn] = r
+		return r
+	}
+	// does this cell receive a number read from the connection?
+	cellFromWire := func(cell ssa.Value) bool {
+		refs := cell.Referrers()
+		if refs == nil {
+			return false
+		}
+		for _, ref := range *refs {
+			switch x := ref.(type) {
+			case ssa.CallInstruction:
+				if isDecoderMethodCall(x) {
+					return true
+				}
+			case *ssa.Store:
+				if x.Addr != cell {
+					continue
+				}
+				v := x.Val
+				for {
+					if cv, ok := v.(*ssa.Convert); ok {
+						v = cv.X
+						continue
+					}
+					break
+				}
+				if ex, ok := v.(*ssa.Extract); ok {
+					if call, ok := ex.Tuple.(*ssa.Call); ok {
+						if o := calleeObj(call); o != nil && o.Pkg() != nil && o.Pkg().Path() == "strconv" {
+							return true
+						}
+					}
+				}
+			}
+		}
+		return false
+	}
+	// trace: is v (at instruction at in fn) a wire number, and is it known non-zero?
+	var trace func(fn *ssa.Function, at ssa.Instruction, v ssa.Value, depth int) (wire, ok bool, where string)
+	trace = func(fn *ssa.Function, at ssa.Instruction, v ssa.Value, depth int) (bool, bool, string) {
+		for {
+			switch x := v.(type) {
+			case *ssa.Convert:
+				v = x.X
+				continue
+			case *ssa.ChangeType:
+				v = x.X
+				continue
+			}
+			break
+		}
+		f, _ := flowOf(fn).at(at)
+		if prm := paramOf(v); prm != nil && ssa.Value(prm) != v {
+			// a parameter spilled into a cell because a closure captures it
+			if f.has("nonzero:" + cellKey(v)) {
+				return true, true, fnKey(fn)
+			}
+			v = prm
+		}
+		switch x := v.(type) {
+		case *ssa.UnOp:
+			if x.Op != token.MUL {
+				return false, true, ""
+			}
+			var cell ssa.Value
+			switch a := x.X.(type) {
+			case *ssa.Alloc:
+				cell = a
+			case *ssa.FreeVar:
+				// captured cell: look at the binding in the parent
+				if par := fn.Parent(); par != nil {
+					for k, fv := range fn.FreeVars {
+						if fv == a {
+							allInstrs(par, func(i ssa.Instruction) {
+								if mc, ok := i.(*ssa.MakeClosure); ok && mc.Fn == ssa.Value(fn) {
+									cell = mc.Bindings[k]
+								}
+							})
+						}
+					}
+				}
+				if !(cellFromWire(a) || (cell != nil && cellFromWire(cell))) {
+					return false, true, ""
+				}
+				return true, f.has("nonzero:cell:" + a.Name()), fnKey(fn)
+			default:
+				return false, true, ""
+			}
+			if !cellFromWire(cell) {
+				return false, true, ""
+			}
+			return true, f.has("nonzero:" + cellKey(v)), fnKey(fn)
+		case *ssa.Parameter:
+			if f.has("nonzero:param:" + x.Name()) {
+				return true, true, fnKey(fn)
+			}
+			if depth >= 3 {
+				return false, true, ""
+			}
+			idx := -1
+			for k, prm := range fn.Params {
+				if prm == x {
+					idx = k
+				}
+			}
+			wire, ok, where := false, true, ""
+			for _, site := range callSitesOf(p, fn) {
+				args := site.Common().Args
+				if idx < 0 || idx >= len(args) {
+					continue
+				}
+				w, o, wh := trace(site.Parent(), site, args[idx], depth+1)
+				if w {
+					wire = true
+					if !o {
+						ok = false
+						where = wh
+					}
+				}
+			}
+			return wire, ok, where
+		case *ssa.Extract:
+			if call, isCall := x.Tuple.(*ssa.Call); isCall {
+				if o := calleeObj(call); o != nil && o.Pkg() != nil && o.Pkg().Path() == "strconv" {
+					return true, f.has("nonzero:val:" + x.Name()), fnKey(fn)
+				}
+			}
+			return false, true, ""
+		case *ssa.Phi:
+			if f.has("nonzero:val:" + x.Name()) {
+				return true, true, fnKey(fn)
+			}
+			wire, ok, where := false, true, ""
+			for _, e := range x.Edges {
+				w, o, wh := trace(fn, at, e, depth+1)
+				if w {
+					wire = true
+					if !o {
+						ok, where = false, wh
+					}
+				}
+			}
+			return wire, ok, where
+		}
+		return false, true, ""
+	}
+	n := 0
+	report := func(fn *ssa.Function, at ssa.Instruction, v ssa.Value, sink, reason string) {
+		wire, ok, where := trace(fn, at, v, 0)
+		if !wire {
+			return
+		}
+		n++
+		key := fmt.Sprintf("%s: %s#%d", fnKey(fn), sink, countKey(c, rule, fmt.Sprintf("%s: %s#", fnKey(fn), sink))+1)
+		c.check(ok, rule, key, at.Pos(), "the number read from the wire is tested non-zero before it is handed over ("+reason+")",
+			fmt.Sprintf("a number read from the server reaches %s (%s) with no non-zero test on some path (in %s): the server's '0' is delivered to the caller as a message number/UID instead of being reported as an error", sink, reason, where))
+	}
+	for _, fn := range p.SrcFuncs("imapclient") {
+		allInstrs(fn, func(i ssa.Instruction) {
+			switch x := i.(type) {
+			case *ssa.Store:
+				fr, ok := fieldOf(x.Addr)
+				if !ok || fr.Field == nil || fr.Owner == nil {
+					return
+				}
+				name := fr.Owner.Obj().Name() + "." + fr.Field.Name()
+				reason, listed := deliveredNumberFields[name]
+				if !listed {
+					return
+				}
+				// slice-typed fields: the appended elements
+				if call, ok := x.Val.(*ssa.Call); ok {
+					if b, ok := call.Call.Value.(*ssa.Builtin); ok && b.Name() == "append" && len(call.Call.Args) == 2 {
+						if sl, ok := call.Call.Args[1].(*ssa.Slice); ok {
+							if arr, ok := sl.X.(*ssa.Alloc); ok {
+								for _, ref := range *arr.Referrers() {
+									if ia, ok := ref.(*ssa.IndexAddr); ok {
+										for _, r2 := range *ia.Referrers() {
+											if st, ok := r2.(*ssa.Store); ok && st.Addr == ssa.Value(ia) {
+												report(fn, st, st.Val, name, reason)
+											}
+										}
+									}
+								}
+							}
+						}
+						return
+					}
+				}
+				report(fn, x, x.Val, name, reason)
+			case *ssa.Send:
+				if fr, ok := loadedField(x.Chan); ok && fr.is("ExpungeCommand", "seqNums") {
+					report(fn, x, x.X, "ExpungeCommand.seqNums", "sequence number of an EXPUNGE response; 0 also ends ExpungeCommand.Next's iteration early")
+				}
+			case *ssa.Call:
+				if x.Call.IsInvoke() || staticCallee(x) != nil {
+					return
+				}
+				// call of the func-typed field UnilateralDataHandler.Expunge
+				v := x.Call.Value
+				if ph, ok := v.(*ssa.Phi); ok && len(ph.Edges) > 0 {
+					v = ph.Edges[0]
+				}
+				isExp := false
+				if fr, ok := loadedField(v); ok && fr.is("UnilateralDataHandler", "Expunge") {
+					isExp = true
+				}
+				if fv, ok := v.(*ssa.Field); ok {
+					if fr, ok := fieldOf(fv); ok && fr.is("UnilateralDataHandler", "Expunge") {
+						isExp = true
+					}
+				}
+				if isExp && len(x.Call.Args) == 1 {
+					report(fn, x, x.Call.Args[0], "UnilateralDataHandler.Expunge", "sequence number of a unilateral EXPUNGE")
+				}
+			}
+		})
+	}
+	if n < 5 {
+		c.unresolvedRoot("deliveries of wire numbers to the caller")
+	}
+}
